@@ -543,7 +543,7 @@ func (cs *ContractSet) parseClause(fc *FuncContract, c rawLine, path string) err
 			return fmt.Errorf("%s:%d: dyncall <name> : <fnspec>", path, c.line)
 		}
 		dc := DynCall{Name: strings.TrimSpace(parts[0]), Spec: strings.TrimSpace(parts[1])}
-		if k := strings.Index(dc.Spec, "("); k >= 0 && strings.HasSuffix(dc.Spec, ")") {
+		if k := lastOpenParen(dc.Spec); k >= 0 && strings.HasSuffix(dc.Spec, ")") && !strings.HasSuffix(dc.Spec[:k], ".") && k > 0 {
 			argTxt := dc.Spec[k+1 : len(dc.Spec)-1]
 			dc.Spec = strings.TrimSpace(dc.Spec[:k])
 			dc.HasArgs = true
@@ -584,8 +584,8 @@ func (cs *ContractSet) parseClause(fc *FuncContract, c rawLine, path string) err
 			fc.Hooks = append(fc.Hooks, hook)
 			break
 		}
-		if when != "before" && when != "after" {
-			return fmt.Errorf("%s:%d: expected before/after", path, c.line)
+		if when != "before" && when != "after" && when != "onpanic" {
+			return fmt.Errorf("%s:%d: expected before/after/onpanic", path, c.line)
 		}
 		w, r := firstWord(r)
 		if w != "call" {
@@ -729,4 +729,24 @@ func contractFileFor(repoDir, relPkgDir, mirrorRoot string, preferMirror bool) (
 		return inMirror, "mirror"
 	}
 	return "", ""
+}
+
+// lastOpenParen returns the index of the parenthesis matching the final ')' of s.
+func lastOpenParen(s string) int {
+	if !strings.HasSuffix(s, ")") {
+		return -1
+	}
+	depth := 0
+	for i := len(s) - 1; i >= 0; i-- {
+		switch s[i] {
+		case ')':
+			depth++
+		case '(':
+			depth--
+			if depth == 0 {
+				return i
+			}
+		}
+	}
+	return -1
 }
